@@ -81,14 +81,19 @@ def _worker(job):
                     rp = getattr(getattr(r, 'ob', None), 'replay', None)
                 d['replay_input'] = r.model
                 d['clause'] = rp
-                if r.model is not None and rp is not None and getattr(c, 'harness', None):
+                if rp is not None and rp.get('scenario'):
+                    # protocol-level obligation: replay the named history on the real classes
+                    d['replay_input'] = {'harness': 'history_harness', 'scenario': rp['scenario'], 'counter_model': r.detail[:1500]}
+                    d['replay'] = run_replay('history_harness', {'input': d['replay_input'], 'clause': rp})
+                elif r.model is not None and rp is not None and getattr(c, 'harness', None):
                     d['replay'] = run_replay(r.model.get('harness', c.harness), {'input': r.model, 'clause': rp})
                 else:
                     d['replay'] = {'ran': False, 'clause_holds': None,
                                    'error': 'no concrete input could be derived from the counter-model'}
             out['results'].append(d)
     except Exception as e:
-        out['error'] = '%s: %s\n%s' % (type(e).__name__, e, traceback.format_exc()[-1500:])
+        out['error'] = '%s: %s' % (type(e).__name__, e)
+        out['traceback'] = traceback.format_exc()[-1500:]
     out['seconds'] = time.time() - t0
     return out
 
@@ -99,7 +104,8 @@ def match_known(known, pid, res):
     for k in known:
         if k.get('status') != 'open' or k['property'] != pid:
             continue
-        if k['obligation'] != res['name']:
+        obs = k['obligation'] if isinstance(k['obligation'], list) else [k['obligation']]
+        if res['name'] not in obs:
             continue
         pred = k.get('input_predicate')
         if pred:
@@ -171,7 +177,8 @@ def main(argv=None):
                 else:
                     r['verdict'] = 'violation'
                     violations.append(r)
-    n_ob = len(all_res)
+    n_known = len(known_hit)
+    n_ob = len(all_res) - n_known          # obligations claimed to hold (known findings are reported, not claimed)
     n_dis = sum(1 for r in all_res if r['status'] == 'proved')
     lines = []
     # group violations by obligation name (one VIOLATION line per obligation, first path's replay)
@@ -192,7 +199,7 @@ def main(argv=None):
         lines.append('VIOLATION property=%s replay=%s%s' % (pid, fn, '' if reproduced else ' no-failing-input-found'))
     seen_k = set()
     for k, r in known_hit:
-        key = k.get('id') or k['obligation']
+        key = k.get('id') or str(k['obligation'])
         if key in seen_k:
             continue
         seen_k.add(key)
@@ -234,6 +241,7 @@ def main(argv=None):
             'undecided': [r['name'] + '@' + r['path'] for r in undecided],
             'failed': [{'obligation': r['name'], 'path': r['path'], 'verdict': r.get('verdict')} for r in all_res if r['status'] == 'failed'],
             'known_findings_reported': sorted(seen_k),
+            'known_finding_obligations': n_known,
             'checker_errors': errors,
             'obligation_list': [{'name': r['name'], 'path': r['path'], 'backend': r['backend'], 'result': r['status'],
                                  'seconds': r['seconds']} for r in all_res],
